@@ -135,7 +135,24 @@ func newIndexUsing(path string, mapping mapping.IndexMapping, indexType string, 
 	if err != nil {
 		return nil, err
 	}
-	err = rv.i.SetInternal(util.MappingInternalKey, mappingBytes)
+	if path != "" && rv.meta.IndexType == scorch.Name {
+		// an on-disk scorch index configured with unsafe_batch returns from a
+		// batch before it is persisted; the mapping must nevertheless be on
+		// disk before the index is reported as created, or a Close that comes
+		// before the first persist leaves an index which cannot be opened
+		mappingBatch := index.NewBatch()
+		mappingBatch.SetInternal(util.MappingInternalKey, mappingBytes)
+		persisted := make(chan error, 1)
+		mappingBatch.SetPersistedCallback(func(err error) {
+			persisted <- err
+		})
+		err = rv.i.Batch(mappingBatch)
+		if err == nil {
+			err = <-persisted
+		}
+	} else {
+		err = rv.i.SetInternal(util.MappingInternalKey, mappingBytes)
+	}
 	if err != nil {
 		return nil, err
 	}
